@@ -186,6 +186,10 @@ func c02Atoms() []c02Atom {
 	out = append(out, c02Atom{gen.Bin(">=", K(), gen.Str("")), "opaque", true})
 	out = append(out, c02Atom{gen.Bin("<=", K(), gen.Str("")), "le", true})
 	out = append(out, c02Atom{gen.Bin("^=", K(), gen.Str("")), "prefix", true})
+	out = append(out, c02Atom{gen.Bin(">=", gen.Str(""), K()), "le", false})
+	out = append(out, c02Atom{gen.Bin(">", gen.Str(""), K()), "le", false})
+	out = append(out, c02Atom{gen.Bin("<=", gen.Str(""), K()), "opaque", false})
+	out = append(out, c02Atom{gen.Bin("<", K(), gen.Str("")), "le", false})
 	// opaque atoms
 	out = append(out, c02Atom{gen.Bin("=", gen.Value(), gen.Str("x")), "opaque", true})
 	out = append(out, c02Atom{gen.Call("is_int", gen.Value()), "opaque", false})
